@@ -11,14 +11,17 @@ from .docgen import N, can_interrupt_paragraph, need_blank
 
 
 class L:
-    __slots__ = ('text', 'lazy', 'starts', 'blank', 'bare')
+    __slots__ = ('text', 'lazy', 'starts', 'blank', 'bare', 'qlazy')
 
-    def __init__(self, text, lazy=False, starts=None, blank=False, bare=True):
+    def __init__(self, text, lazy=False, starts=None, blank=False, bare=True, qlazy=False):
         self.text = text
         self.lazy = lazy
         self.starts = starts or []
         self.blank = blank
         self.bare = bare      # no container prefix has been applied yet: only then may an outer container drop its own
+        # a paragraph continuation line that stays one only through its own indentation of four or more columns: a block
+        # quote may still drop its marker before it (the indentation stays), a list item may not (it would lose it)
+        self.qlazy = qlazy
 
 
 # ---------------------------------------------------------------- inline
@@ -127,7 +130,7 @@ class Writer:
         out = [L(' ' * first_indent + ls[0], False, [b])]
         for l in ls[1:]:
             # a line that is only kept from being a block start by its indentation must keep all container prefixes
-            out.append(L(l, not l.startswith('    ')))
+            out.append(L(l, not l.startswith('    '), qlazy=l.startswith('    ')))
         return out
 
     def blocks(self, bs, tight=False, in_item=False, doc_level=False, bullet=None):
@@ -309,12 +312,12 @@ class Writer:
             out = []
             prev_indented = False
             for li, rec in enumerate(inner):
-                lazy_ok = rec.lazy and rec.bare and not no_lazy
+                lazy_ok = (rec.lazy or rec.qlazy) and rec.bare and not no_lazy
                 if lazy_ok and prev_indented and 'lazy_after_indented' in self.exclude:
                     lazy_ok = False
                 if lazy_ok and t.chance(70):
                     self.lazy_used += 1
-                    out.append(L(rec.text, True, rec.starts))
+                    out.append(L(rec.text, rec.lazy, rec.starts, qlazy=rec.qlazy))
                     continue
                 if rec.blank:
                     m = '> ' if self.canonical else t.choice(['>', '> ', '>'])
